@@ -123,6 +123,88 @@ NoWrap(k, a, olo, on) ==
 HalfLength(k, a, olo, on) ==
   \A d \in Axes : Max2(a.lo[d] + a.n[d], olo[d] + on[d]) - Min2(a.lo[d], olo[d]) <= Max2(1, k.n[d] \div 2)
 
+(* ======================================================================== *)
+(* BEYOND THE PROPERTY TEXT: the other filters and array functions built on *)
+(* the same blocks.  C19's sentences are about Fourier transforms and       *)
+(* linear filters; the sections below state what the documentation of the   *)
+(* respective class says, and are bound to the code in the same way.        *)
+(* ======================================================================== *)
+
+(* ---- data longer than the padded length (ArrayFilterUsingRealDFTWithPadding) ---- *)
+\* "in_array and out_array can have arbitrary index ranges. However, they will [be] copied (if necessary) using
+\* wrap-around to/from an array with the same dimensions as the 'real' kernel": a copy in index order, so of the
+\* input elements that share a residue class the one with the largest index is the one that stays
+LastIn(lo, n, L, r) == LET hi == lo + n - 1 IN hi - ((hi - r) % L)      \* largest index <= hi congruent to r
+Wrapped(a, L) ==
+  Arr(<<0, 0, 0>>, L,
+      [q \in 1..Size(L) |->
+         LET r == Pos(<<0, 0, 0>>, L, q - 1)
+             x == [d \in Axes |-> LastIn(a.lo[d], a.n[d], L[d], r[d])] IN
+         IF InRange(a, x) THEN a.v[Off(a, x)] ELSE 0])
+\* data that fit are not changed by the wrapping (theorem checked in MC_Conv)
+ThWrapped(k, a, olo, on) == FitsPadding(k, a) => PerConv(k, Wrapped(a, k.n), olo, on) = PerConv(k, a, olo, on)
+
+(* ---- MedianArrayFilter3D / MinimalArrayFilter3D ------------------------------- *)
+\* "extracting all neigbours (given by the mask) to a 1D array"; "handles edges by taking a median of all
+\* available pixels"; mask size = 2*radius+1 per axis
+Neighbours(a, p, r) ==
+  LET box == { x \in ((p[1] - r[1])..(p[1] + r[1])) \X ((p[2] - r[2])..(p[2] + r[2])) \X ((p[3] - r[3])..(p[3] + r[3])) : InRange(a, x) }
+      ord == CHOOSE f \in [1..Cardinality(box) -> box] : \A i, j \in 1..Cardinality(box) : i # j => f[i] # f[j]
+  IN  [i \in 1..Cardinality(box) |-> a.v[Off(a, ord[i])]]
+CountLess(s, v) == Cardinality({ i \in 1..Len(s) : s[i] < v })
+CountLeq(s, v) == Cardinality({ i \in 1..Len(s) : s[i] <= v })
+\* k-th element (0-based) of the sorted sequence
+Kth(s, k) == CHOOSE v \in { s[i] : i \in 1..Len(s) } : CountLess(s, v) <= k /\ CountLeq(s, v) > k
+\* "The median for a 1D array of 2n+1 elements is defined as the nth element of the sorted array. For 2n elements,
+\* we use (sorted[n-1]+sorted[n])/2": TWICE the median, to stay in the integers
+Median2(s) == IF Len(s) % 2 = 1 THEN 2 * Kth(s, Len(s) \div 2) ELSE Kth(s, Len(s) \div 2 - 1) + Kth(s, Len(s) \div 2)
+Minimum(s) == CHOOSE v \in { s[i] : i \in 1..Len(s) } : \A i \in 1..Len(s) : v <= s[i]
+\* fast neighbourhood: the values only (order irrelevant for median and minimum)
+NeighbourVals(a, p, r) ==
+  LET z0 == Max2(a.lo[1], p[1] - r[1])  z1 == Min2(a.lo[1] + a.n[1] - 1, p[1] + r[1])
+      y0 == Max2(a.lo[2], p[2] - r[2])  y1 == Min2(a.lo[2] + a.n[2] - 1, p[2] + r[2])
+      x0 == Max2(a.lo[3], p[3] - r[3])  x1 == Min2(a.lo[3] + a.n[3] - 1, p[3] + r[3])
+      nz == z1 - z0 + 1  ny == y1 - y0 + 1  nx == x1 - x0 + 1
+  IN  [i \in 1..(nz * ny * nx) |-> a.v[Off(a, << z0 + ((i - 1) \div (ny * nx)), y0 + (((i - 1) \div nx) % ny), x0 + ((i - 1) % nx) >>)]]
+Median2Filter(a, r) == Arr(a.lo, a.n, [q \in 1..Size(a.n) |-> Median2(NeighbourVals(a, Pos(a.lo, a.n, q - 1), r))])
+MinimalFilter(a, r) == Arr(a.lo, a.n, [q \in 1..Size(a.n) |-> Minimum(NeighbourVals(a, Pos(a.lo, a.n, q - 1), r))])
+Scaled2(a, f) == Arr(a.lo, a.n, [q \in 1..Size(a.n) |-> f * a.v[q]])
+\* ArrayFunctionObject::is_trivial "Should return true when the operations won't modify the object at all"
+MaskIsIdentity(r) == r = <<0, 0, 0>>
+ThMedian(a, r) ==
+  /\ \A q \in 1..Size(a.n) : LET s == NeighbourVals(a, Pos(a.lo, a.n, q - 1), r) IN
+        /\ Len(s) = Len(Neighbours(a, Pos(a.lo, a.n, q - 1), r))
+        /\ 2 * Minimum(s) <= Median2(s) /\ \A i \in 1..Len(s) : Median2(s) <= 2 * s[i] \/ CountLess(s, s[i]) < Len(s) \div 2 + 1
+  /\ MaskIsIdentity(r) => (Median2Filter(a, r) = Scaled2(a, 2) /\ MinimalFilter(a, r) = a)
+  /\ (\A i \in 1..Size(a.n) : a.v[i] = a.v[1]) => Median2Filter(a, r) = Scaled2(a, 2)
+
+(* ---- TruncateToCylindricalFOVImageProcessor ------------------------------------ *)
+\* "sets voxels to 0 outside a given radius"; truncate_rim: "sets to zero voxels within rim_truncation_image of the
+\* FOV rim".  Centre and radius as the code fixes them (the documentation leaves them open for even sizes):
+\* centre = (first + last) / 2 and radius = (last - first) / 2 - rim in C integer arithmetic (rounding towards 0),
+\* taken from the x and y index ranges; a voxel is kept iff dx^2 + dy^2 < radius^2 (<= if not "strictly less")
+CDiv2(v) == IF v >= 0 THEN v \div 2 ELSE -((-v) \div 2)
+InsideFOV(a, p, rim, strict) ==
+  LET xm == CDiv2(a.lo[3] + (a.lo[3] + a.n[3] - 1))
+      ym == CDiv2(a.lo[2] + (a.lo[2] + a.n[2] - 1))
+      rad == (a.n[3] - 1) \div 2 - rim
+      d2 == (xm - p[3]) * (xm - p[3]) + (ym - p[2]) * (ym - p[2]) IN
+  IF strict THEN d2 < rad * rad ELSE d2 <= rad * rad
+TruncateFOV(a, rim, strict) ==
+  Arr(a.lo, a.n, [q \in 1..Size(a.n) |-> IF InsideFOV(a, Pos(a.lo, a.n, q - 1), rim, strict) THEN a.v[q] ELSE 0])
+
+(* ---- ChainedDataProcessor: "calls 2 DataProcessors in sequence" ------------------ *)
+\* a stage is a record with field t: "conv" (separable convolution, fields klo, kv), "median" (r), "trunc" (rim,
+\* strict), "none" (a null pointer); values are kept integral: a median stage doubles the scale, a convolution
+\* stage multiplies it by 2^sk for every non-empty kernel
+ApplyStage(st, a) ==
+  CASE st.t = "conv" -> SepInOrder([ax \in Axes |-> [lo |-> st.klo[ax], v |-> st.kv[ax], bc |-> "zero"]], a, <<1, 2, 3>>)
+    [] st.t = "median" -> Median2Filter(a, st.r)
+    [] st.t = "trunc" -> TruncateFOV(a, st.rim, st.strict)
+    [] st.t = "none" -> a
+RECURSIVE ApplyChain(_, _)
+ApplyChain(stages, a) == IF Len(stages) = 0 THEN a ELSE ApplyChain(Tail(stages), ApplyStage(Head(stages), a))
+
 (* ------------------------------------------------------------------------ *)
 (* Fixed-point observations of the padded-DFT route (encoding F): the       *)
 (* output is logged as round(v * 2^fk).  Error model: the route computes    *)
